@@ -86,6 +86,23 @@ def run(ctx):
     if rc3 != 0 or not races:
         ctx.problem("correspondence", "go harness C17 (concurrent posts)", out3[-1500:])
     conc = conc + races
+    # the other caller of PostObservationRequest: the processor's cleanup loop (node/pkg/processor/cleanup.go).  Its scripted fault
+    # history "request queue full when the retry falls due" runs on the real handleCleanup; a cleanup that waits for room stalls the
+    # processor's only goroutine ("posting to a full outbound request queue fails immediately instead of stalling the caller")
+    rc4, out4, trace4 = core.harness_pkg(ctx, "processor", "^TestVerifProc$", timeout=1800)
+    prow = core.read_jsonl(trace4)
+    if rc4 != 0 or not prow:
+        ctx.problem("correspondence", "go harness C17 (cleanup caller, processor harness)", out4[-1500:])
+    nfull = 0
+    for h in prow:
+        if "request-queue-full" in (h.get("shape") or ""):
+            nfull += 1
+        for line in h.get("mon") or []:
+            if line.startswith("processor blocked") and "cleanup" in line:
+                ctx.problem("monitor", "the processor's cleanup stalled on a full outbound request queue: " + line, "history %s (%s), real handleCleanup" % (h["id"], h.get("shape")),
+                            concrete=True, replay={"history": h["id"], "shape": h.get("shape"), "ops": h["ops"]}, key="post:cleanup-stalls-on-full-queue")
+                break
+    ctx.cov["cleanup_caller_histories_with_full_request_queue"] = nfull
     if "DATA RACE" in out or "DATA RACE" in out2:
         ctx.problem("monitor", "the race detector reports a data race in the dispatcher", (out + out2)[(out + out2).index("DATA RACE") - 50:][:1500], concrete=True,
                     replay={"race_report": (out + out2)[(out + out2).index("DATA RACE") - 50:][:3000]}, key="race")
